@@ -188,8 +188,10 @@ func (rp *relyingParty) Logger(ctx context.Context) (logger *slog.Logger, ok boo
 // OAuth2 Config and possible configOptions
 // it will use the AuthURL and TokenURL set in config
 func NewRelyingPartyOAuth(config *oauth2.Config, options ...Option) (RelyingParty, error) {
+	// the auth style is set on a copy, the config of the caller is left as it is
+	oauthConfig := *config
 	rp := &relyingParty{
-		oauthConfig:         config,
+		oauthConfig:         &oauthConfig,
 		httpClient:          httphelper.DefaultHTTPClient,
 		oauth2Only:          true,
 		unauthorizedHandler: DefaultUnauthorizedHandler,
